@@ -191,7 +191,9 @@ def patterns(names):
     """Name patterns: exact names, prefixes with *, ?, classes, patterns matching nothing."""
     names = list(names)
     base = [st.sampled_from(names)] if names else []
-    glob = st.sampled_from(["*", "A*", "t1*", "t?", "?", "[AB]*", "*_*", "nomatch*", "t1", "B_?", "[!A]*", "*1"])
+    # incl. patterns whose only metacharacter is a bracket class
+    glob = st.sampled_from(["*", "A*", "t1*", "t?", "?", "[AB]*", "*_*", "nomatch*", "t1", "B_?", "[!A]*", "*1",
+                            "[AB]", "A[b_]", "t1[0]", "B_[12]", "[!z]b"])
     return st.lists(st.one_of(*base, glob), min_size=1, max_size=3)
 
 
